@@ -7,6 +7,7 @@ import (
 	"fmt"
 	"runtime"
 	"sort"
+	"strings"
 	"sync"
 	"sync/atomic"
 
@@ -173,6 +174,21 @@ func genConfig(t *rapid.T) Config {
 
 func isMultiType(typ string) bool { return typ[0] == 'T' }
 
+// nestOK: may a goroutine that holds locks ask for further, larger keys? Always for single-key calls; for multi-key
+// calls only where the locker acquires in list order - not on a sharded group with more than one shard, which
+// acquires in (shard, list) order (known finding F21, probed separately).
+func (c Config) nestMultiOK() bool {
+	return !strings.Contains(c.Type, "Grp") || c.Shards == 1
+}
+
+// nestOK: may a goroutine hold a lock while it asks for a larger key at all? Not on a generic sharded group with
+// several shards: there even a nested single-key request can deadlock against somebody else's multi-key call,
+// which takes its keys in shard order (F21). The interface{}-keyed groups have no multi-key calls, so nesting
+// single keys in ascending order is safe on them.
+func (c Config) nestOK() bool {
+	return !isMultiType(c.Type) || c.nestMultiOK()
+}
+
 // genKeyList draws a duplicate-free ascending sub-list of the keys (the one
 // global order the property allows).
 func genKeyList(t *rapid.T, nkeys int, multi bool) []int {
@@ -205,6 +221,9 @@ type Step struct {
 	Write bool   `json:"write,omitempty"`
 	Keys  []int  `json:"keys,omitempty"`
 	Multi bool   `json:"multi,omitempty"` // use Locks/RLocks even for a one-key list
+	// Nest: the call is issued by the goroutine of actor Parent, which still holds its own (smaller) keys
+	Nest   bool `json:"nest,omitempty"`
+	Parent int  `json:"parent,omitempty"`
 }
 
 type CaseCtl struct {
@@ -254,8 +273,27 @@ func GenCtl(t *rapid.T) CaseCtl {
 			continue
 		}
 		a := &genActor{keys: genKeyList(t, c.NKeys, isMultiType(c.Type)), write: rapid.IntRange(0, 9).Draw(t, "write") < 5}
+		st := Step{Op: "lock", Write: a.write}
+		if len(live) > 0 && rapid.IntRange(0, 4).Draw(t, "nest") == 0 {
+			// a nested request: keys strictly above everything its parent asked for
+			par := rapid.SampledFrom(live).Draw(t, "parent")
+			top := actors[par].keys[len(actors[par].keys)-1]
+			var ks []int
+			for _, k := range a.keys {
+				if k > top {
+					ks = append(ks, k)
+				}
+			}
+			if len(ks) == 0 && top+1 < c.NKeys {
+				ks = []int{rapid.IntRange(top+1, c.NKeys-1).Draw(t, "nestkey")}
+			}
+			if len(ks) > 0 && c.Config.nestOK() {
+				a.keys = ks
+				st.Nest, st.Parent = true, par
+			}
+		}
 		actors = append(actors, a)
-		st := Step{Op: "lock", Actor: len(actors) - 1, Write: a.write, Keys: a.keys}
+		st.Actor, st.Keys = len(actors)-1, a.keys
 		if len(a.keys) == 1 && isMultiType(c.Type) {
 			st.Multi = rapid.IntRange(0, 3).Draw(t, "multi1") == 0
 		}
@@ -271,6 +309,7 @@ type actorRun struct {
 	op       *vkit.Op
 	unlockOp *vkit.Op
 	wantFree bool // an unlock step was issued while the actor was still parked: unlock as soon as it returns
+	parent   int  // -1, or the actor whose goroutine issued this (nested) call
 }
 
 func validKeys(keys []int, nkeys int) bool {
@@ -298,6 +337,16 @@ func ExecCtl(c CaseCtl) *vkit.Result {
 	holding := func(r *actorRun) bool { return r.op.Done() && r.unlockOp == nil }
 	pending := func(r *actorRun) bool { return !r.op.Done() }
 
+	// a holder whose goroutine is parked in a nested call cannot unlock
+	hasPendingChild := func(ai int) bool {
+		for _, r := range runs {
+			if r.parent == ai && pending(r) {
+				return true
+			}
+		}
+		return false
+	}
+	releasable := func(ai int) bool { return holding(runs[ai]) && !hasPendingChild(ai) }
 	doUnlock := func(ai int) {
 		r := runs[ai]
 		r.unlockOp = sched.Go(fmt.Sprintf("unlock-%d", ai), func() { lk.unlock(r.keys, r.write, r.multi) })
@@ -329,7 +378,7 @@ func ExecCtl(c CaseCtl) *vkit.Result {
 			sched.MustQuiesce()
 			again := false
 			for ai, r := range runs {
-				if r.wantFree && holding(r) {
+				if r.wantFree && releasable(ai) {
 					r.wantFree = false
 					doUnlock(ai)
 					again = true
@@ -400,8 +449,14 @@ func ExecCtl(c CaseCtl) *vkit.Result {
 			}
 		}
 		// (3) no deadlock: parked calls need some holder whose unlock can wake them
-		if nPending > 0 && nHolders == 0 {
-			res.Failf("deadlock", "step %d (%s): %d calls are parked forever and no lock is held by anyone", stepNo, what, nPending)
+		nReleasable := 0
+		for ai := range runs {
+			if releasable(ai) {
+				nReleasable++
+			}
+		}
+		if nPending > 0 && nReleasable == 0 {
+			res.Failf("deadlock", "step %d (%s): %d calls are parked forever and nobody is in a position to unlock anything (%d holders, all parked in nested calls themselves)", stepNo, what, nPending, nHolders)
 			return false
 		}
 		if nPending > 0 {
@@ -432,7 +487,24 @@ func ExecCtl(c CaseCtl) *vkit.Result {
 				res.Skip("bad-lock-step")
 				continue
 			}
-			r := &actorRun{keys: append([]int(nil), keys...), write: st.Write, multi: st.Multi && lk.multi()}
+			r := &actorRun{keys: append([]int(nil), keys...), write: st.Write, multi: st.Multi && lk.multi(), parent: -1}
+			if st.Nest && st.Parent >= 0 && st.Parent < len(runs) && releasable(st.Parent) && runs[st.Parent].unlockOp == nil && !runs[st.Parent].wantFree &&
+				keys[0] > runs[st.Parent].keys[len(runs[st.Parent].keys)-1] && c.Config.nestOK() {
+				// every key above everything the parent chain holds: the one global order
+				ok := true
+				for p := runs[st.Parent].parent; p >= 0; p = runs[p].parent {
+					if !holding(runs[p]) {
+						ok = false
+					}
+				}
+				if ok {
+					r.parent = st.Parent
+					res.Class("nested-call")
+					if len(keys) > 1 {
+						res.Class("nested-multi-key-call")
+					}
+				}
+			}
 			if r.multi && len(keys) == 1 {
 				res.Class("one-key-multi-call")
 			}
@@ -457,7 +529,7 @@ func ExecCtl(c CaseCtl) *vkit.Result {
 			case r.unlockOp != nil || r.wantFree:
 				res.Skip("double-unlock")
 				continue
-			case holding(r):
+			case releasable(st.Actor):
 				doUnlock(st.Actor)
 			default:
 				r.wantFree = true // unlocks as soon as it gets the lock
@@ -474,8 +546,8 @@ func ExecCtl(c CaseCtl) *vkit.Result {
 	// drain: release holders one at a time until nobody holds and nobody waits
 	for guard := 0; guard < 10000; guard++ {
 		released := false
-		for ai, r := range runs {
-			if holding(r) {
+		for ai := range runs {
+			if releasable(ai) {
 				doUnlock(ai)
 				released = true
 				break
@@ -530,15 +602,22 @@ type CaseStress struct {
 func GenStress(t *rapid.T) CaseStress {
 	c := CaseStress{Config: genConfig(t)}
 	c.Procs = rapid.SampledFrom([]int{1, 2, 4, 8}).Draw(t, "procs")
-	c.Nested = rapid.IntRange(0, 3).Draw(t, "nested") == 0
+	c.Nested = rapid.IntRange(0, 3).Draw(t, "nested") == 0 && c.Config.nestOK()
 	ng := rapid.IntRange(3, 12).Draw(t, "goroutines")
 	for g := 0; g < ng; g++ {
 		var prog []StressOp
 		n := rapid.IntRange(1, 8).Draw(t, "proglen")
 		for i := 0; i < n; i++ {
 			op := StressOp{Write: rapid.IntRange(0, 9).Draw(t, "write") < 5, Hold: rapid.IntRange(0, 3).Draw(t, "hold")}
-			if c.Nested {
+			if c.Nested && !(c.Config.nestMultiOK() && isMultiType(c.Type)) {
 				op.Keys = []int{rapid.IntRange(0, c.NKeys-1).Draw(t, "key")}
+			} else if c.Nested {
+				// short ascending lists, so that chains of nested calls remain possible
+				k0 := rapid.IntRange(0, c.NKeys-1).Draw(t, "key")
+				op.Keys = []int{k0}
+				if k0+1 < c.NKeys && rapid.Bool().Draw(t, "two") {
+					op.Keys = append(op.Keys, rapid.IntRange(k0+1, c.NKeys-1).Draw(t, "key2"))
+				}
 			} else {
 				op.Keys = genKeyList(t, c.NKeys, isMultiType(c.Type))
 				op.Multi = len(op.Keys) == 1 && isMultiType(c.Type) && rapid.IntRange(0, 3).Draw(t, "multi1") == 0
@@ -549,7 +628,7 @@ func GenStress(t *rapid.T) CaseStress {
 			// turn runs of strictly ascending single keys into nests
 			for i := 0; i < len(prog); i++ {
 				j := i
-				for j+1 < len(prog) && prog[j+1].Keys[0] > prog[j].Keys[0] {
+				for j+1 < len(prog) && prog[j+1].Keys[0] > prog[j].Keys[len(prog[j].Keys)-1] {
 					j++
 				}
 				if j > i && rapid.Bool().Draw(t, "nestit") {
@@ -577,6 +656,10 @@ func ExecStress(c CaseStress) *vkit.Result {
 	}
 	if c.Procs >= 1 && c.Procs <= 64 {
 		defer runtime.GOMAXPROCS(runtime.GOMAXPROCS(c.Procs))
+	}
+	if c.Nested && !c.Config.nestOK() {
+		res.Skip("nesting-on-a-sharded-generic-group")
+		return res
 	}
 	lk := c.build()
 	sched := vkit.NewSched()
@@ -624,7 +707,7 @@ func ExecStress(c CaseStress) *vkit.Result {
 		i := 0
 		for i < len(prog) {
 			op := prog[i]
-			ok := validKeys(op.Keys, c.NKeys) && (len(op.Keys) == 1 || (lk.multi() && !c.Nested)) && op.Keys[0] > minKey
+			ok := validKeys(op.Keys, c.NKeys) && (len(op.Keys) == 1 || (lk.multi() && (!c.Nested || c.Config.nestMultiOK()))) && op.Keys[0] > minKey
 			if !ok {
 				i++
 				continue
@@ -637,13 +720,13 @@ func ExecStress(c CaseStress) *vkit.Result {
 				runtime.Gosched()
 			}
 			consumed := 1
-			if c.Nested && op.Nest > 0 && len(op.Keys) == 1 {
+			if c.Nested && op.Nest > 0 {
 				end := i + 1 + op.Nest
 				if end > len(prog) {
 					end = len(prog)
 				}
 				// inner ops must use larger keys than everything held: the consistent global order
-				run(g, prog[i+1:end], op.Keys[0])
+				run(g, prog[i+1:end], op.Keys[len(op.Keys)-1])
 				consumed = end - i
 			}
 			leave(op.Keys, op.Write)
@@ -698,6 +781,91 @@ func ExecStress(c CaseStress) *vkit.Result {
 }
 
 // ---------------------------------------------------------------------------
+// probe of known finding F21 (known_findings.jsonl): on a generic sharded group with several shards a multi-key
+// call takes its keys in (shard, list) order, so a goroutine that holds key a and then asks for a larger key b -
+// every list ascending, every call respecting the one global order - deadlocks against Locks([a,b]) when
+// shard(b) < shard(a). The generator above excludes that region by construction (nestOK); this part re-checks
+// that the finding still fails and keeps it visible.
+
+type CaseF21 struct {
+	XHash       bool `json:"xhash"`
+	Shards      int  `json:"shards"`
+	NestedMulti bool `json:"nested_multi"` // the nested request goes through Locks([b]) instead of Lock(b)
+	ReadBatch   bool `json:"read_batch"`   // the batch is RLocks([a,b]) (the holder of a is a writer either way)
+}
+
+func GenF21(t *rapid.T) CaseF21 {
+	return CaseF21{
+		XHash:       rapid.Bool().Draw(t, "xhash"),
+		Shards:      rapid.SampledFrom([]int{2, 3, 7, 73}).Draw(t, "shards"),
+		NestedMulti: rapid.Bool().Draw(t, "nestedmulti"),
+		ReadBatch:   rapid.Bool().Draw(t, "readbatch"),
+	}
+}
+
+func ExecF21(c CaseF21) *vkit.Result {
+	res := &vkit.Result{NonTrivial: true}
+	if c.Shards < 2 || c.Shards > 1000 {
+		res.Skip("malformed-config")
+		return res
+	}
+	rm := remap.NewReMap(remap.WithPrime(uint64(c.Shards)))
+	idx := rm.SimpleIndex
+	if c.XHash {
+		idx = rm.XHashIndex
+	}
+	// the smallest pair a < b with shard(b) < shard(a)
+	a, b := -1, -1
+	for x := 0; x < 500 && a < 0; x++ {
+		for y := x + 1; y < 500; y++ {
+			if idx(y) < idx(x) {
+				a, b = x, y
+				break
+			}
+		}
+	}
+	if a < 0 {
+		res.Skip("no-inverted-pair")
+		return res
+	}
+	var lk keylock.TLocker[int]
+	if c.XHash {
+		lk = keylock.NewTXHashTKeyLockeGrp[int](remap.WithPrime(uint64(c.Shards)))
+	} else {
+		lk = keylock.NewTKeyLockeGrp[int](remap.WithPrime(uint64(c.Shards)))
+	}
+	sched := vkit.NewSched()
+	lk.Lock(a) // goroutine 1 (the controller plays its first call) holds a
+	batch := sched.Go("batch", func() {
+		if c.ReadBatch {
+			lk.RLocks([]int{a, b})
+			lk.RUnlocks([]int{a, b})
+		} else {
+			lk.Locks([]int{a, b})
+			lk.Unlocks([]int{a, b})
+		}
+	})
+	sched.MustQuiesce()                   // the batch is parked: it needs a
+	nested := sched.Go("nested", func() { // goroutine 1 goes on: asks for the larger key b, then releases both
+		if c.NestedMulti {
+			lk.Locks([]int{b})
+			lk.Unlocks([]int{b})
+		} else {
+			lk.Lock(b)
+			lk.Unlock(b)
+		}
+		lk.Unlock(a)
+	})
+	sched.MustQuiesce()
+	if !nested.Done() || !batch.Done() {
+		return res.Failf("deadlock/nested-ordered-calls-on-sharded-group", "shards %d (xhash %v): a goroutine holds key %d (shard %d) and asks for key %d (shard %d) while another calls Locks([%d %d]): both are parked forever although every call respects the ascending key order",
+			c.Shards, c.XHash, a, idx(a), b, idx(b), a, b)
+	}
+	res.Class("no-deadlock")
+	return res
+}
+
+// ---------------------------------------------------------------------------
 
 var PartCtl = &vkit.Part[CaseCtl]{
 	Property: Property, Name: "controlled",
@@ -720,4 +888,11 @@ var PartStressRace = &vkit.Part[CaseStress]{
 	Rule:  stressRule + " (binary built with -race)",
 	Quick: 150, Thorough: 1500,
 	Gen: GenStress, Exec: ExecStress,
+}
+
+var PartF21 = &vkit.Part[CaseF21]{
+	Property: Property, Name: "known-f21-probe",
+	Rule:  "the recorded finding F21, re-checked: generic sharded group (modulo / xxhash, 2/3/7/73 shards), the smallest key pair a < b with shard(b) < shard(a); one goroutine holds a and then asks for b (Lock or Locks([b])), another calls Locks/RLocks([a,b]); both parked at quiescence = the known deadlock. Every case is non-trivial; distinct = distinct case JSON",
+	Quick: 6, Thorough: 6,
+	Gen: GenF21, Exec: ExecF21,
 }
